@@ -93,6 +93,28 @@ def generate(ctx):
         for t in thrs:
             cs.append(snps_case(cid, hard, t, refb, alnb, {"kind": "snps:agg", "nontrivial": shared, "group": g, "role": "agg", "nseq": nseq, "thr": t}))
             cid += 1
+    # ---- a wide alignment: positions of five and of six digits in one table (ordered by position as a NUMBER)
+    if True:
+        g = 3 * n + 60
+        w = 100030
+        ref = "".join(rng.choice("ACGT") for _ in range(w))
+        sites = [9, 9999, 10000, 99999, 100000, 100010, 100029]
+        recs = []
+        for i in range(3):
+            t = list(ref)
+            for p_ in sites[i:] if i else sites:
+                t[p_ - 1] = {"A": "C", "C": "G", "G": "T", "T": "A"}[t[p_ - 1]]
+            recs.append(("w%d" % i, "".join(t)))
+        refb, alnb = gen.layout(rng, [("r", ref)], "plain"), gen.layout(rng, recs, "plain")
+        persq = {"id": cid, "go": {"id": cid, "op": "snps", "ref": cm.b64(refb), "aln": cm.b64(alnb), "hard": False},
+                 "coq": None, "meta": {"kind": "snps:perseq", "nontrivial": False, "group": g, "role": "perseq"}, "sample": {"cmd": "snps"}, "info": {}, "skipcoq": True}
+        cs.append(persq)
+        cid += 1
+        agg = snps_case(cid, False, 0.0, refb, alnb, {"kind": "snps:agg:wide", "nontrivial": True, "group": g, "role": "agg", "nseq": 3, "thr": 0.0})
+        agg["skipcoq"] = True          # 100,030 columns: decided by the recount oracle (each SNP once, count/n, position order)
+        agg["sample"] = {"cmd": "snps --aggregate", "note": "reference of 100,030 columns, SNPs at %r" % sites}
+        cs.append(agg)
+        cid += 1
     for g in range(n, 2 * n):
         # ---- variants
         suffix = rng.choice(["gb", "gff"])
@@ -146,6 +168,36 @@ def generate(ctx):
             cs.append(dict(vcommon.variants_case(cid, msa, "REF", annob, suffix,
                                                  {"kind": "variants:agg", "nontrivial": shared, "group": g, "role": "agg", "nseq": nseq, "thr": t},
                                                  start=s, end=e, append_snps=append, aggregate=True, threshold=t), wrap="CVar"))
+            cid += 1
+    # ---- two coding features of ONE name (as pp1ab and pp1a are both /gene="ORF1ab") with a differently named feature listed
+    # between them, all sharing their first codons: a sequence carries the change once, however many features report it
+    for g in range(3 * n + 50, 3 * n + 52):
+        suffix = ["gb", "gff"][g % 2]
+        third = 4
+        genome = gen.rand_seq(rng, 6 * third + 9)
+        feats = [anno.Feature("pp", "+", [(4, 3 + 6 * third)], 1, True), anno.Feature("other", "+", [(4, 3 + 3 * third)], 1, True),
+                 anno.Feature("pp", "+", [(4, 3 + 3 * (third - 1))], 1, True)]
+        genome, feats = anno.patch_stops(rng, genome, feats)
+        if len(feats) != 3:
+            continue
+        rows = []
+        for i in range(4):
+            t = list(genome)
+            if i < 2:
+                # a non-synonymous change in the second codon (positions 7..9), shared by all three features
+                cod = genome[6:9]
+                alts = [a + b + c for a in "ACGT" for b in "ACGT" for c in "ACGT"
+                        if anno.translate_codon(a + b + c) not in (anno.translate_codon(cod), "*")]
+                t[6:9] = list(rng.choice(alts))
+            rows.append("".join(t))
+        msa, recs = vcommon.build_msa(rng, genome, rows, refpos="first")
+        annob = anno.render_genbank(genome, feats, rng) if suffix == "gb" else anno.render_gff(genome, feats)
+        cs.append(dict(vcommon.variants_case(cid, msa, "REF", annob, suffix, {"kind": "variants:perseq", "nontrivial": False, "group": g, "role": "perseq"}), wrap="CVar"))
+        cid += 1
+        for t in (0.0, 0.5, 0.75):
+            cs.append(dict(vcommon.variants_case(cid, msa, "REF", annob, suffix,
+                                                 {"kind": "variants:agg", "nontrivial": True, "group": g, "role": "agg", "nseq": 4, "thr": t},
+                                                 aggregate=True, threshold=t), wrap="CVar"))
             cid += 1
     # ---- sam variants (the third command of the statement): per-sequence vs --aggregate on one SAM file; in half of the
     # groups one read carries the name of the reference record (it is not a query: it is left out of both)
@@ -224,6 +276,11 @@ def post_go(ctx, cases, obs):
         lines = cm.unb64(obs[per[0]["id"]]["out"]).decode().split("\n")[1:]
         rows = [l.partition(",")[2] for l in lines if l]
         lists = [[m for m in r.split("|") if m] for r in rows]
+        for l in lists:
+            if len(set(l)) != len(l):
+                per[0]["sample"]["oracle_problems"] = ["a per-sequence list repeats a mutation: %r" % l]
+                if per[0] not in bad:
+                    bad.append(per[0])
         nseq = len(lists)
         counts = {}
         for l in lists:
